@@ -74,6 +74,8 @@ def run(ctx):
     r203(ctx)
     r206(ctx)
     r208(ctx)
+    r209(ctx)
+    r2010(ctx)
     from . import c06 as _c06, meta_rules as _mr
     _c06.r64(ctx, ctx.repo['api'])
     _c06.r65(ctx, ctx.repo['api'])
@@ -389,6 +391,49 @@ def r206(ctx):
     for attr, sites in sorted(calldep.items()):
         ctx.ob('R20.6', 'api:call-dependent-attribute-%s-is-write-only-on-the-read-path' % attr, True,
                'stored in %s' % sorted({a for a, _ in sites}), api.loc(sites[0][1]))
+
+
+def r209(ctx, rule='R20.9'):
+    """The statistics objects of the row groups are shared by a handle and everything derived from it, and the pruning
+    code adds decoded bounds to them while it runs (a classified memo).  Code of the read API therefore never walks
+    those objects in Python: a recursive copy (copy.deepcopy) of the footer, of row groups or of chunks iterates the
+    very dicts another thread may be inserting into ("dictionary changed size during iteration").  Shallow copies
+    (copy.copy, .copy(), list(...)) are single C-level operations and are what the derivations use."""
+    api = ctx.repo['api']
+    roots = [('api', 'ParquetFile.' + e) for e in ENTRY] + [('api', 'filter_row_groups'), ('api', 'statistics')]
+    seen = ctx.cg.reachable(roots)
+    n = 0
+    for k in sorted(seen):
+        if k[0] not in ('api', 'core', 'util', 'schema', 'dataframe'):
+            continue
+        m = ctx.repo[k[0]]
+        g = m.funcs.get(k[1])
+        if g is None:
+            continue
+        for c in walk_no_nested(g):
+            if isinstance(c, ast.Call) and (callee(c) or '').split('.')[-1] == 'deepcopy':
+                n += 1
+                ctx.ob(rule, '%s.%s:no-recursive-copy-of-shared-metadata-on-the-read-API' % k, False,
+                       '`%s` walks metadata that other threads annotate while they prune' % norm(c)[:70], m.loc(c))
+    ctx.ob(rule, 'read-API:no-recursive-copies', n == 0, '%d deepcopy call(s) reachable from the read API' % n, 'fastparquet/api.py:1', nontrivial=False)
+
+
+def r2010(ctx, rule='R20.10'):
+    """Every read opens its own file object: `self.open` is the caller's opener or fsspec's, and each to_pandas call
+    calls it afresh.  The one exception is a dataset given as an already open file-like object, for which __init__
+    installs an opener that returns that very object - all reads, also concurrent ones, then seek and read the same
+    object (known finding K20a)."""
+    api = ctx.repo['api']
+    f = api.func('ParquetFile.__init__')
+    shared = []
+    for st in walk_no_nested(f):
+        if isinstance(st, ast.Assign) and isinstance(st.value, ast.Lambda) and norm(st.targets[0]) in ('open_with', 'self.open'):
+            body = st.value.body
+            if isinstance(body, ast.Name) and body.id in {a.arg for a in f.args.args}:
+                shared.append(st)
+    ctx.ob(rule, 'api.ParquetFile.__init__:every-read-gets-its-own-file-object', not shared,
+           '%s: the opener hands the caller\'s one file object to every read' % [norm(x)[:60] for x in shared],
+           api.loc(shared[0]) if shared else api.loc(f))
 
 
 def r208(ctx, rule='R20.8'):
